@@ -3,6 +3,7 @@
 package impl
 
 import (
+	opb "github.com/google/fhir/go/proto/google/fhir/proto/r4/core/resources/observation_go_proto"
 	ppb "github.com/google/fhir/go/proto/google/fhir/proto/r4/core/resources/patient_go_proto"
 	"github.com/shopspring/decimal"
 	"math"
@@ -320,5 +321,37 @@ func VerifHarness_C10_IntersectOfRepeatedItems() {
 		ok = got[i] != nil && verifEq(got[i], want[i])
 	}
 	verifrt.Assert(ok, "intersect-is-duplicate-free-common-items")
+	verifrt.Reach("end")
+}
+
+// select(e) with a real projection of two steps through a choice element: Observation.component.select(value.unit)
+// over components whose value[x] is a Quantity or a String, in any order. An item on which the path is not defined
+// contributes nothing (the library tolerates that unless every item fails); every other item contributes its own
+// elements, in order - whatever stood before it.
+func VerifHarness_C10_SelectThroughAChoice() {
+	n := 2 + verifrt.Choose("n", 2)
+	var input, want system.Collection
+	for i := 0; i < n; i++ {
+		c := &opb.Observation_Component{}
+		if verifrt.NondetBool("quantity") {
+			u := &dtpb.String{Value: verifrt.NondetString("unit", 1)}
+			c.Value = &opb.Observation_Component_ValueX{Choice: &opb.Observation_Component_ValueX_Quantity{Quantity: &dtpb.Quantity{Unit: u}}}
+			want = append(want, u)
+		} else {
+			c.Value = &opb.Observation_Component_ValueX{Choice: &opb.Observation_Component_ValueX_StringValue{StringValue: &dtpb.String{Value: "s"}}}
+		}
+		input = append(input, c)
+	}
+	proj := &expr.ExpressionSequence{Expressions: []expr.Expression{&expr.FieldExpression{FieldName: "value"}, &expr.FieldExpression{FieldName: "unit"}}}
+	got, err := Select(verifCtx(), input, proj)
+	if len(want) == 0 {
+		verifrt.Assert(err != nil, "select-fails-when-the-projection-is-defined-on-no-item")
+	} else {
+		ok := err == nil && len(got) == len(want)
+		for i := 0; ok && i < len(want); i++ {
+			ok = got[i] == want[i]
+		}
+		verifrt.Assert(ok, "select-is-in-order-concatenation")
+	}
 	verifrt.Reach("end")
 }
